@@ -17,7 +17,10 @@ import (
 	"github.com/thanos-community/promql-engine/logicalplan"
 )
 
-type dummyRemote struct{ api.RemoteEngine; idx int }
+type dummyRemote struct {
+	api.RemoteEngine
+	idx int
+}
 
 func cmdDistCases(args []string) {
 	fs := flag.NewFlagSet("distcases", flag.ExitOnError)
